@@ -21,7 +21,7 @@ func init() {
 		Rule: "one evaluation = a fresh server whose Run is started while 1..8 pollers spin on Ready(); the first poller iteration that observes true immediately dials the address and performs a verified bind, and " +
 			"keeps dialing at PRNG-chosen later instants until Stop is called. Addresses cover IPv4, hostname, bracketed and unbracketed IPv6 loopback and the empty-host form. Failing addresses (empty, no port, " +
 			"bracket errors, invalid IPv4, unresolvable host, a port the harness keeps bound, a port served by another running gldap server, and a TLS configuration without certificates) must make Run return an error while Ready() - polled during the call and for a while after - never reports true. " +
-			"Runs under GOMAXPROCS 1, 4 and 16. A refused dial after an observed true is a logical fact, not a timing judgement. " +
+			"Between Ready and Stop the harness also lets Accept fail temporarily (descriptor shortage) and parks silent peers on a TLS listener: a new connection must still be served within 10s afterwards / meanwhile. Runs under GOMAXPROCS 1, 4 and 16. A refused dial after an observed true is a logical fact, not a timing judgement. " +
 			"distinct_nontrivial = distinct (address form, #pollers, GOMAXPROCS, whether a poller saw false before true) combinations",
 		Assume: []string{"the address is dialled exactly as it was passed to Run (for the empty-host form, 127.0.0.1)"},
 		Phases: func(tier string, seed int64) []Phase {
@@ -31,12 +31,14 @@ func init() {
 			}
 			return ps
 		},
-		MinObserved: []string{"startups", "dials_after_ready_true", "failing_addresses_checked", "pollers_saw_false_before_true"},
+		MinObserved: []string{"startups", "dials_after_ready_true", "failing_addresses_checked", "pollers_saw_false_before_true", "served_after_accept_failure_episodes", "served_next_to_silent_tls_peers"},
 	})
 }
 
-func c17Bind(addr string) error {
-	cl, err := dialRaw(addr, nil)
+func c17Bind(addr string) error { return c17BindOver(addr, nil) }
+
+func c17BindOver(addr string, tc *tls.Config) error {
+	cl, err := dialRaw(addr, tc)
 	if err != nil {
 		return err
 	}
@@ -138,6 +140,7 @@ func c17Run(c *Ctx) {
 			c.Sample(det)
 		}
 	}
+	c17Disturbances(c)
 	// ---- addresses Run cannot listen on
 	held, err := net.Listen("tcp", "127.0.0.1:0")
 	if err != nil {
@@ -277,5 +280,90 @@ func c17Run(c *Ctx) {
 			}
 			srv.S.Stop()
 		}
+	}
+}
+
+// c17Served: a fresh connection is served within the bound (bounded-progress oracle with its own bound).
+func c17Served(addr string, tc *tls.Config, bound time.Duration) error {
+	res := make(chan error, 1)
+	go func() {
+		var err error
+		for dl := time.Now().Add(bound); time.Now().Before(dl); time.Sleep(20 * time.Millisecond) {
+			if err = c17BindOver(addr, tc); err == nil {
+				break
+			}
+		}
+		res <- err
+	}()
+	select {
+	case err := <-res:
+		return err
+	case <-time.After(bound + time.Second):
+		return fmt.Errorf("no served connection within %s", bound)
+	}
+}
+
+// c17Disturbances: between an observed Ready() == true and Stop, things happen that are not the server's fault - the
+// process runs out of descriptors for a moment (Accept fails temporarily), peers connect to a TLS listener and never
+// say a word. While Ready() stays true and Stop has not been called, a new connection must still be served.
+func c17Disturbances(c *Ctx) {
+	const bound = 10 * time.Second
+	pki := newPKI()
+	bindOK := func(m *gldap.Mux) {
+		m.Bind(func(w *gldap.ResponseWriter, req *gldap.Request) {
+			w.Write(req.NewBindResponse(gldap.WithResponseCode(0)))
+		})
+	}
+	for ep := 0; ep < c.N(3, 12); ep++ {
+		srv, err := startSrv(SrvCfg{}, bindOK)
+		if err != nil {
+			c.Inconclusive("server start: " + err.Error())
+			return
+		}
+		if _, err := emfileEpisode(srv.Addr, ep); err != nil {
+			c.Inconclusive("emfile episode: " + err.Error())
+			srv.StopWithin(patience)
+			return
+		}
+		ready := srv.S.Ready()
+		if err := c17Served(srv.Addr, nil, bound); err != nil && ready {
+			returned := false
+			select {
+			case <-srv.runDone:
+				returned = true
+			default:
+			}
+			c.Violate("Ready() was true but a connection attempt failed or was not served", fmt.Sprintf("after Accept had failed temporarily (descriptor shortage, over now): Ready()=%v, Run returned=%v, Stop not called, yet no new connection is served within %s: %v", srv.S.Ready(), returned, bound, err), map[string]any{"episode": ep})
+		} else if err == nil {
+			c.Count("dials_after_ready_true", 1)
+		}
+		c.Count("served_after_accept_failure_episodes", 1)
+		srv.StopWithin(patience)
+
+		tsrv, err := startSrv(SrvCfg{TLS: pki.ServerOnly}, bindOK)
+		if err != nil {
+			c.Inconclusive("server start: " + err.Error())
+			return
+		}
+		var silent []net.Conn
+		for k := 0; k < 1+ep%3; k++ {
+			if cn, err := net.Dial("tcp", tsrv.Addr); err == nil {
+				if k%2 == 1 {
+					cn.Write([]byte{0x16, 0x03, 0x01, 0x02, 0x00})
+				}
+				silent = append(silent, cn)
+			}
+		}
+		time.Sleep(5 * time.Millisecond)
+		if err := c17Served(tsrv.Addr, pki.ClientPlain, bound); err != nil && tsrv.S.Ready() {
+			c.Violate("Ready() was true but a connection attempt failed or was not served", fmt.Sprintf("TLS listener with %d peers that connected and never completed a handshake: Ready()=true, Stop not called, yet a conforming client is not served within %s: %v", len(silent), bound, err), map[string]any{"episode": ep})
+		} else if err == nil {
+			c.Count("dials_after_ready_true", 1)
+		}
+		c.Count("served_next_to_silent_tls_peers", 1)
+		for _, cn := range silent {
+			cn.Close()
+		}
+		tsrv.StopWithin(patience)
 	}
 }
